@@ -183,9 +183,9 @@ CHECKS = {
         technique="exhaustive enumeration of (program x hostile scope) on the real macro; differential + model oracle, structural path-root scan",
         ref="DESIGN.md §3 C19"),
     "C20": dict(
-        text="Every sequence with repetition over 15 representative invocations up to length 3 (quick) / 4 + all 720 permutations of six (thorough) "
+        text="Every sequence with repetition over 16 representative invocations up to length 3 (quick) / 4 + all 720 permutations of six (thorough) "
              "is expanded inside one compiler process per history; each invocation's recorded (attr, input, output) at every position must equal "
-             "the record of the same invocation expanded alone. The corpus is also expanded under 7 environments (incl. the variables build tools / CI / docs.rs set) x {alone, 16 concurrent processes}. "
+             "the record of the same invocation expanded alone. The corpus is also expanded under 8 environments (incl. the variables build tools / CI / docs.rs set) x {alone, 16 concurrent processes}. "
              "Hash-seed independence is only sampled (R fresh processes) and reported as such.",
         note=NOTE + " std RandomState seeds are not controlled (sampled, outside the exhaustive claim).",
         technique="exhaustive enumeration of invocation histories per compiler process, differential oracle (alone vs in-history)",
